@@ -338,6 +338,7 @@ pub fn run(tape: &mut Tape, props: Props, p: &Params, trace_on: bool) -> Outcome
         medium,
         timeouts: [timeout[0].is_some(), timeout[1].is_some()],
         probes: [None, None],
+        stall_total: 0,
     };
     let res = main_loop(&mut w, &mut st, tape);
     let viol = res.err();
@@ -371,6 +372,8 @@ struct St {
     medium: Medium,
     timeouts: [bool; 2],
     probes: [Option<ProbeArm>; 2],
+    /// total duration of application read/write stalls drawn so far
+    stall_total: i64,
 }
 
 fn sock<'a>(w: &'a World, st: &St, n: usize) -> &'a tcp::Socket<'static> {
@@ -421,7 +424,7 @@ fn main_loop(w: &mut World, st: &mut St, tape: &mut Tape) -> Result<(), Violatio
                     format!("no progress for 400 simulated seconds after faults stopped (last progress at {} us, now {} us); {}", since, w.now, describe(w, st)),
                 ));
             }
-            if w.now > time_cap && !complete(w, st) {
+            if w.now > time_cap + 2 * st.stall_total && !complete(w, st) {
                 return Err(viol(
                     "C02",
                     "total-bound",
@@ -547,6 +550,12 @@ fn c08c_check(w: &mut World, st: &mut St, to: usize, frame: Vec<u8>, tape: &mut 
     // flush whatever is queued first so that the damaged frame is processed alone
     if !w.nodes[to].dev.rx.is_empty() {
         service(w, st, to, tape)?;
+    }
+    if !w.nodes[to].dev.rx.is_empty() {
+        // the device refused to hand out frames (tx ring full): cannot isolate the damaged frame
+        w.nodes[to].dev.rx.push_back(frame);
+        w.stats.inc("c08.corrupt-not-isolated");
+        return Ok(());
     }
     let before = format!("{:?}", w.nodes[to].sockets.get::<tcp::Socket>(st.apps[to].h));
     w.nodes[to].dev.tx_budget = None;
@@ -698,7 +707,7 @@ fn finish_service(w: &mut World, st: &mut St, n: usize, tape: &mut Tape, from_pr
     if w.props.has("C02") && st.p.liveness {
         let s = sock(w, st, n);
         let state = s.state();
-        let needs = s.send_queue() > 0 || matches!(state, tcp::State::SynSent | tcp::State::SynReceived | tcp::State::FinWait1 | tcp::State::Closing | tcp::State::LastAck);
+        let needs = state != tcp::State::Closed && (s.send_queue() > 0 || matches!(state, tcp::State::SynSent | tcp::State::SynReceived | tcp::State::FinWait1 | tcp::State::Closing | tcp::State::LastAck));
         if needs && d.is_none() {
             return Err(viol(
                 "C02",
@@ -749,6 +758,7 @@ fn finish_service(w: &mut World, st: &mut St, n: usize, tape: &mut Tape, from_pr
 fn app_step(w: &mut World, st: &mut St, n: usize, tape: &mut Tape) -> Result<bool, Violation> {
     let now = w.now;
     let mut did = false;
+    let mut stall_add: i64 = 0;
     let peer_closed = st.apps[1 - n].closed;
     let peer_sent = st.apps[1 - n].sent;
     let peer_key = st.apps[1 - n].key_tx;
@@ -786,6 +796,7 @@ fn app_step(w: &mut World, st: &mut St, n: usize, tape: &mut Tape) -> Result<boo
             if tape.chance(1, 12) {
                 let d = *tape.pick(&[5_000i64, 100_000, 1_500_000, 8_000_000]);
                 a.write_stall_until = now + d;
+                stall_add += d;
                 w.stats.inc("app.write-stall");
                 let at = now + d;
                 w.schedule(at, Ev::App { node: n });
@@ -865,6 +876,7 @@ fn app_step(w: &mut World, st: &mut St, n: usize, tape: &mut Tape) -> Result<boo
                     if !(liveness && peer_fin_seen) && tape.chance(1, 10) {
                         let d = *tape.pick(&[10_000i64, 200_000, 2_000_000, 20_000_000]);
                         a.read_stall_until = now + d;
+                        stall_add += d;
                         w.stats.inc("app.read-stall");
                         w.schedule(now + d, Ev::App { node: n });
                         break;
@@ -903,6 +915,7 @@ fn app_step(w: &mut World, st: &mut St, n: usize, tape: &mut Tape) -> Result<boo
             }
         }
     }
+    st.stall_total += stall_add;
     Ok(did)
 }
 
@@ -1064,7 +1077,7 @@ fn describe(w: &World, st: &St) -> String {
         let a = &st.apps[n];
         let so = w.nodes[n].sockets.get::<tcp::Socket>(a.h);
         let d = format!("{:?}", so);
-        let head: String = d.chars().take(140).collect();
+        let head: String = strip_storage(&d);
         s += &format!(
             "[{} state={} sendq={} recvq={} app(sent={}/{} recvd={} closed={} eof={} err={}) dbg={}…] ",
             w.nodes[n].name,
@@ -1090,4 +1103,23 @@ fn deadlock_violation(w: &World, st: &St) -> Violation {
         format!("C02.deadlock/{}", state_sig(w, st)),
         format!("no frame in flight, no deadline on either node, no pending application action, but the transfer/close is incomplete; {}", describe(w, st)),
     )
+}
+
+/// Remove the `storage: [...]` byte dumps from a socket's Debug rendering.
+pub fn strip_storage(d: &str) -> String {
+    let mut out = String::new();
+    let mut rest = d;
+    while let Some(i) = rest.find("storage: ") {
+        out += &rest[..i];
+        out += "storage: [..]";
+        let after = &rest[i..];
+        match after.find(']') {
+            Some(j) => rest = &after[j + 1..],
+            None => {
+                rest = "";
+            }
+        }
+    }
+    out += rest;
+    out.chars().take(3000).collect()
 }
